@@ -106,7 +106,8 @@ func (w *c15Worker) degenerate(o *c15Opt, oi int, cases []c15Case, words []strin
 		od.V = map[string]string{"v1": d, "v2": o.V["v2"]}
 		ref := w.reference(&od)
 		if p := ref.out["v1"].panic; p != nil {
-			verifx.Fail(c15Case{Opt: o.Name, Deg: d, Note: "degenerate value alone on the command line"},
+			verifx.Fail(c15Case{Opt: o.Name, Deg: d, DegSet: true, Note: "degenerate value alone on the command line", Cmd: "v1", Fenv: c15None, Env: c15None, File: c15None,
+				FenvCase: "upper", EnvCase: "upper", Fstate: "absent", Via: "validate", Winner: "cmd", Value: "v1", Result: "cfg"},
 				map[string]any{"sub": "sources", "clause": "load-panic", "source": "cmdline", "entry": "degenerate-value"},
 				"config.Load panicked for -%s=%q: %v\n%s", o.Name, d, p, c15Stack(ref.out["v1"].stack))
 			w.ndeg++
